@@ -185,6 +185,7 @@ impl Filter {
     /// * logLevelMax: u8 (optional, defaults to all loglevels)
     /// * lifecycles: array of u32 (optional, defaults to all lifecycles)
     /// * verb_mstp_mtin: u8 (optional, defaults to all messages) or
+    /// * verb_mstp_mtin_mask: u8 (optional, only together with verb_mstp_mtin: overrides the derived mask)
     /// * mstp: u8 (optional, defaults to all messages)
     pub fn from_json(json_str: &str) -> Result<Filter, Error> {
         // Parse the string of data into serde_json::Value.
@@ -348,7 +349,14 @@ impl Filter {
             let verb_mstp_mtin = (mstp & 0xff) as u8;
             // special handling: if mtin here is 0 we want it to be ignored (as mtin 0 is a special value)
             let mtin = (verb_mstp_mtin >> 4) & 0xf;
-            let mask = if mtin == 0 { 0x0fu8 } else { 0xffu8 };
+            let mask = if let Some(mask) = v["verb_mstp_mtin_mask"].as_u64() {
+                // explicit mask (written by to_json for masks that differ from the derived one)
+                (mask & 0xff) as u8
+            } else if mtin == 0 {
+                0x0fu8
+            } else {
+                0xffu8
+            };
             Some((verb_mstp_mtin, mask))
         } else if let Some(mstp) = v["mstp"].as_u64() {
             // match mstp to verb_mstp_mtin logic
@@ -745,6 +753,22 @@ impl Serialize for Filter {
         }
         if let Some(lcs) = &self.lifecycles {
             state.serialize_field("lifecycles", &lcs)?;
+        }
+        if let Some((verb_mstp_mtin, mask)) = &self.verb_mstp_mtin {
+            // use the forms from_json derives the mask from; any other mask is written explicitly
+            if *mask == (0x07u8 << 1) && (verb_mstp_mtin & !mask) == 0 {
+                state.serialize_field("mstp", &(verb_mstp_mtin >> 1))?;
+            } else {
+                let derived_mask = if (verb_mstp_mtin >> 4) == 0 {
+                    0x0fu8
+                } else {
+                    0xffu8
+                };
+                state.serialize_field("verb_mstp_mtin", verb_mstp_mtin)?;
+                if *mask != derived_mask {
+                    state.serialize_field("verb_mstp_mtin_mask", mask)?;
+                }
+            }
         }
         state.end()
     }
